@@ -71,7 +71,7 @@ def run(env) -> Result:
                 pre = bytes(rnd.randrange(256) for _ in range(p))
                 # bytes after the extent are replaced by noise (EOF arrays own the rest of the input by definition)
                 tail = body[consumed:] if has_eof(tree) else bytes(rnd.randrange(256) for _ in range(rnd.choice([0, 1, 9])))
-                data = pre + body[:consumed] + tail
+                data = (pre + body) if has_eof(tree) else (pre + body[:consumed].ljust(consumed, b"\x00") + tail)
                 s = io.BytesIO(data)
                 s.seek(p)
                 try:
@@ -106,7 +106,8 @@ def run(env) -> Result:
                     eng.report(f"{name} gives {str(got)[:200]}, T(bytes) gives {str(base[1])[:200]}", eng.case_data(L, data=data, form=name), sigs)
             # a preceding read on the same stream
             if not has_eof(tree):
-                two = body[:consumed] + body[:consumed]
+                one = body[:consumed].ljust(consumed, b"\x00")  # the extent may end in alignment padding beyond the input
+                two = one + one
                 A2 = consumed
                 s = io.BytesIO(two + b"\x00" * 8)
                 try:
